@@ -174,11 +174,13 @@ pub fn string_clone(s: &String) -> (r: String)
     ensures r@ == s@,
 { s.clone() }
 //@extract spl_frontend/src/error.rs :: impl Identifier :: fn to_error
+//@ rewrite string_clone_self_value
 //@ ret e
 //@ sig
         requires self.info.range.end > 0, forall|s: String| call_requires(msg, (s,)),
         ensures
             e.0.end == self.info.range.end && e.0.start == self.info.range.end - 1, //# Identifier::to_error::on_the_name_token
+            exists|s: String, t: T| s@ == self.value@ && call_ensures(msg, (s,), t) && call_ensures(<T as Into<ErrorMessage>>::into, (t,), e.1), //# Identifier::to_error::message_built_from_the_name
 //@end
 
 // ---------- AnalyzedSource::errors — what is published as diagnostics
